@@ -347,7 +347,13 @@ func visitInstr(fr *frame, instr ssa.Instruction) continuation {
 		fr.regs[fr.fi.idx[instr]] = makeMap(instr.Type().Underlying().(*types.Map).Key(), 0)
 
 	case *ssa.Range:
-		fr.regs[fr.fi.idx[instr]] = rangeIter(run, fr.get(instr.X))
+		it := rangeIter(run, fr.get(instr.X))
+		if run.freeMaps {
+			if li, ok := it.(*listIter); ok && len(li.items) > 1 {
+				run.permuteMapOrder(fr, instr, li)
+			}
+		}
+		fr.regs[fr.fi.idx[instr]] = it
 
 	case *ssa.Next:
 		fr.regs[fr.fi.idx[instr]] = fr.get(instr.Iter).(iter).next()
